@@ -1182,6 +1182,9 @@ func (s *Sim) endOfRun() {
 	ar := NewRng(uint64(s.N.Height)*7919 + uint64(len(s.Packets)))
 	if hasAudit(s.Prof, "queries") {
 		s.auditQueries(ar)
+		if uint64(s.N.Height)%3 == 0 {
+			s.auditQueriesAfterGenesisRestart(ar)
+		}
 	}
 	if hasAudit(s.Prof, "pausequeries") {
 		s.auditPauseQueries(ar)
